@@ -5,7 +5,8 @@ from .common import *
 EXPLANATION = ("Decides on the MIR of the current tree: visibility and dependence of channel operations (V1/V2/T3 channel rows), block/wake guards "
                "of the channel (S3,S5,S7), the send->recv happens-before edge with one clock per message in FIFO order (Y1 channel rows), the "
                "writers of the message counter (Q1), that bookkeeping and the carrying std channel act in one step (Q2), that recv blocks on "
-               "emptiness (D2) and that dropping the receiver drains (Q4). Exactly-once/in-order delivery is carried by std's channel (trusted).")
+               "emptiness (D2) and that dropping the receiver drains (Q4). Exactly-once/in-order delivery is carried by std's channel (trusted)."
+               " A message the std channel refuses is taken out of the modelled count again (Q5); G0/G1 cross-check send/recv.")
 RULE_TEXT = "rule instances = channel operations, counter writers, ordered steps; non-trivial when matched to concrete MIR sites"
 LEVEL_NOTE = "necessary conditions only; std::sync::mpsc trusted"
 
